@@ -16,7 +16,7 @@ from vlib.drive import Script, ensure_harness, sink_bytes
 PROP = "C07"
 U = 12345
 ALPHABET = ["only_root", "only_uid:0", "only_uid:%d" % U, "exclude_uid:0", "exclude_uid:%d" % U, "only_tty",
-            "exclude_spawns_of:vdrive", "exclude_spawns_of:nope", "noop", "nosuch", "nosuch:arg", "", "only_uid:", ":x"]
+            "exclude_spawns_of:vdrive", "exclude_spawns_of:nope", "noop", "nosuch", "nosuch:arg", "", "only_uid:", ":x", "exclude_uid", "only_uid"]
 KNOWN = {"only_root", "only_uid", "exclude_uid", "only_tty", "exclude_spawns_of", "noop"}
 
 
@@ -183,7 +183,8 @@ def main():
     for (key, uid, tty), outs in groups.items():
         if len(outs) > 1:
             nmeta += 1
-            if len({g for g, _ in outs}) > 1 and model(list(key), uid, tty) != {"log", "drop"}:
+            # (holds whatever the verdict of an individual element is, also where the model leaves that verdict open)
+            if len({g for g, _ in outs}) > 1:
                 F.violation("C07:order-or-repetition-changes-decision", "chains with the same elements %r decide differently: %r" % (key, sorted(outs)[:4]),
                             dict(elements=key, uid=uid, tty=tty, outcomes=sorted(outs)[:10]))
     tot["metamorphic_groups_with_several_chains"] = nmeta
